@@ -1,0 +1,18 @@
+//go:build verif
+
+// Contracts for package rule, read by the verifier in /verif (build tag verif).
+// This file contains comments only; it adds no code to the package.
+
+package rule
+
+// ---------------------------------------------------------------------------
+// C13: Build / ToCommandLine never panic. A Rule whose dynamic value is a typed
+// nil pointer is outside "all Rule structs" (recorded as a precondition).
+//
+//@ func rule.Build
+//@ requires payload(rule) != 0
+//
+// The first loop of ToCommandLine records, per field id, an index into
+// r.fields; later code uses those indices on r.values.
+//@ func rule.ToCommandLine
+//@ loop 0 invariant forall k field :: k in existingFields ==> 0 <= existingFields[k] && existingFields[k] < len(r.fields)
